@@ -1033,6 +1033,150 @@ class ProgGen:
         self.note("rowgrowth_pushes_%d" % cnt)
         return defs + use + self.shout_all((t,))
 
+    # ---- rows that START EMPTY (values that own no buffer yet: [], [[]], ""), installed through every
+    #      store form in one frame context (top level / loop body / callee / nested call) and grown in
+    #      place LATER in another one (other loop iterations, other calls), several rows alternately,
+    #      then read after that context ended
+    def empty_rows_call(self):
+        r = self.r
+        m = r.randint(2, 4)
+        t = self.fresh("a")
+        wrap = r.random() < 0.3                      # the table is a local of a function
+        form = r.choice(["literal", "setidx", "setidx", "setidx", "nested_setidx", "nested_setidx", "push", "nested_push",
+                         "reassign", "return", "param", "captured", "captured"])
+        place = r.choice(["top", "loop", "callee", "nested"])
+        pre, funs, suffix = [], [], ()
+        E = ("arr", [])
+
+        def filled(k):
+            return ("arr", [("arr", [r.choice([N(7 + j), self.scalar()])]) for j in range(k)])
+
+        def per_row(mk_stmt):
+            """the statement for every row: unrolled, in a loop over a counter, in a callee writing the
+            captured table, or in a callee called from another callee"""
+            if place == "loop":
+                i = self.fresh("i")
+                return [("make", i, N(0)), ("while", ("bin", "small pass", ("var", i), N(m)),
+                                            [mk_stmt(("var", i)), ("set", i, ("bin", "add", ("var", i), N(1)))])]
+            if place in ("callee", "nested"):
+                f = self.fresh("f")
+                body = [mk_stmt(N(j)) for j in range(m)]
+                funs.append(("fun", f, [], body))
+                if place == "nested":
+                    f2 = self.fresh("f")
+                    funs.append(("fun", f2, [], [("expr", ("call", f, [])), ("ret", N(0))]))
+                    f = f2
+                return [("expr", ("call", f, []))]
+            return [mk_stmt(N(j)) for j in range(m)]
+        if form == "literal":
+            deep2 = r.random() < 0.4
+            pre = [("make", t, ("arr", [("arr", [E]) if deep2 else r.choice([E, E, ("str", "")]) for _ in range(m)]))]
+            if deep2:
+                suffix = (0,)
+            else:
+                pre = [("make", t, ("arr", [E for _ in range(m)]))] if r.random() < 0.7 else pre
+                if any(x[0] == "str" for x in pre[0][2][1]):
+                    pre += per_row(lambda ix: ("setidx", (t, [ix]), E))
+        elif form == "setidx":
+            pre = [("make", t, filled(m))] + per_row(lambda ix: ("setidx", (t, [ix]), r.choice([E, E, E, ("arr", [E])])))
+            if any(True for _ in ()):
+                pass
+        elif form == "nested_setidx":
+            pre = [("make", t, ("arr", [("arr", [("arr", [N(j)]), self.scalar()]) for j in range(m)]))]
+            pre += per_row(lambda ix: ("setidx", (t, [ix, N(0)]), E))
+            suffix = (0,)
+        elif form == "push":
+            pre = [("make", t, E)] + per_row(lambda ix: ("push", (t, []), E))
+        elif form == "nested_push":
+            pre = [("make", t, filled(m))] + per_row(lambda ix: ("push", (t, [ix]), E))
+            suffix = (1,)
+        elif form == "reassign":
+            pre = [("make", t, filled(1)), ("set", t, ("arr", [E for _ in range(m)]))]
+        elif form == "return":
+            f = self.fresh("f")
+            if r.random() < 0.5:
+                fb = [("ret", ("arr", [E for _ in range(m)]))]
+            else:
+                l = f + "l"
+                fb = [("make", l, E)] + [("push", (l, []), E) for _ in range(m)] + [("ret", ("var", l))]
+            funs.append(("fun", f, [], fb))
+            pre = [("make", t, ("call", f, []))]
+        elif form == "param":
+            pre = [("make", t, ("arr", [E for _ in range(m)]))]
+        else:   # captured: a function (re)installs the rows of the captured table
+            pre = [("make", t, filled(m))]
+            f = self.fresh("f")
+            if r.random() < 0.5:
+                fb = [("setidx", (t, [N(j)]), E) for j in range(m)]
+            else:
+                fb = [("set", t, ("arr", [E for _ in range(m)]))]
+            funs.append(("fun", f, [], fb + [("ret", N(0))]))
+            pre += [("expr", ("call", f, []))]
+        # a row may have been installed as [[]] by the setidx form: grow its inner row then
+        sfx = [N(c) for c in suffix]
+
+        def val(ix):
+            return r.choice([ix, ix, ("arr", [ix, self.scalar()]), self.scalar()])
+
+        def churn(ix):
+            return [("make", self.fresh("t"), ("arr", [ix, ("arr", [ix, self.scalar()]), self.scalar()]))] if r.random() < 0.5 else []
+        gplace = r.choice(["loop_counter", "rounds", "rounds", "call", "call_loop", "callee_loop"] if form != "param" else ["callee_loop"])
+        tv = t
+        grow = []
+        if gplace == "loop_counter":
+            k = self.fresh("i")
+            grow = [("make", k, N(0)), ("while", ("bin", "small pass", ("var", k), N(m)),
+                                        churn(("var", k)) + [("push", (tv, [("var", k)] + sfx), val(("var", k))),
+                                                             ("shout", ("idx", ("var", tv), N(0))),
+                                                             ("set", k, ("bin", "add", ("var", k), N(1)))])]
+        elif gplace == "rounds":
+            k = self.fresh("i")
+            rounds = r.choice([2, 3, 5, 9])
+            order = list(range(m))
+            r.shuffle(order)
+            inner = churn(("var", k))
+            for j in order:
+                inner += [("push", (tv, [N(j)] + sfx), val(("var", k)))]
+            inner += [("shout", ("idx", ("var", tv), N(order[0]))), ("set", k, ("bin", "add", ("var", k), N(1)))]
+            grow = [("make", k, N(0)), ("while", ("bin", "small pass", ("var", k), N(rounds)), inner)]
+        elif gplace in ("call", "call_loop"):
+            g = self.fresh("f")
+            gk = g + "k"
+            funs.append(("fun", g, [gk], churn(("var", gk)) + [("push", (tv, [("var", gk)] + sfx), val(("var", gk))),
+                                                               ("ret", ("len", ("var", tv)))]))
+            if gplace == "call":
+                for _ in range(r.choice([1, 2, 3])):
+                    for j in range(m):
+                        grow += [("expr", ("call", g, [N(j)]))]
+                    grow += [("shout", ("idx", ("var", tv), N(0)))]
+            else:
+                k = self.fresh("i")
+                grow = [("make", k, N(0)), ("while", ("bin", "small pass", ("var", k), N(m)),
+                                            [("shout", ("call", g, [("var", k)])), ("shout", ("idx", ("var", tv), N(0))),
+                                             ("set", k, ("bin", "add", ("var", k), N(1)))])]
+        else:   # callee_loop: the table is passed, the callee grows its parameter's rows in its own loop
+            g = self.fresh("f")
+            gp, gi = g + "p", g + "i"
+            rounds = r.choice([1, 2, 3, 5])
+            inner = churn(("var", gi))
+            for j in range(m):
+                inner += [("push", (gp, [N(j)] + sfx), val(("var", gi)))]
+            inner += [("shout", ("idx", ("var", gp), N(0))), ("set", gi, ("bin", "add", ("var", gi), N(1)))]
+            funs.append(("fun", g, [gp], [("make", gi, N(0)), ("while", ("bin", "small pass", ("var", gi), N(rounds)), inner),
+                                          ("shout", ("var", gp)), ("ret", ("var", gp))]))
+            d = self.fresh("d")
+            grow = [("make", d, ("call", g, [("var", tv)])), ("shout", ("var", d)), ("shout", ("var", tv)),
+                    ("make", tv + "x", ("call", g, [("var", d)])), ("shout", ("var", tv + "x")), ("shout", ("var", d))]
+        post = [("shout", ("var", tv))] + [("shout", ("idx", ("var", tv), N(j))) for j in range(m)]
+        self.last_shape = "emptyrows"
+        self.note("emptyrows_%s_%s_grow_%s%s" % (form, place if form in ("setidx", "nested_setidx", "push", "nested_push") else "-",
+                                                  gplace, "_wrapped" if wrap else ""))
+        if wrap:
+            w = self.fresh("f")
+            return [("fun", w, [], funs_after_make(pre, funs) + grow + post + [("ret", ("var", tv))]),
+                    ("shout", ("call", w, []))] + self.shout_all()
+        return funs_after_make(pre, funs) + grow + post + self.shout_all((t,))
+
     # ---- one top-level action -> candidate statement list
     def action(self, inner=False):
         r = self.r
@@ -1081,7 +1225,8 @@ class ProgGen:
         if k < 0.56:
             return self.mutation(a, va) + self.shout_all()
         if k < 0.74 and not inner and r.random() < 0.5:
-            sc = r.choice([self.shadow_call, self.arg_order_call, self.arg_order_call, self.row_growth_call, self.row_growth_call])()
+            sc = r.choice([self.shadow_call, self.arg_order_call, self.arg_order_call, self.row_growth_call, self.row_growth_call,
+                           self.empty_rows_call, self.empty_rows_call, self.empty_rows_call])()
             if sc:
                 return sc
         if k < 0.74 and not inner:
@@ -1228,6 +1373,12 @@ class ProgGen:
         return v
 
 
+def funs_after_make(pre, funs):
+    """the table is declared first (functions that capture it are defined after its declaration), then
+    the function definitions, then the rest of the installation statements"""
+    return pre[:1] + funs + pre[1:]
+
+
 def gen_structured(rng, size):
     g = ProgGen(rng, size)
     items = g.build()
@@ -1355,6 +1506,40 @@ class AliasGen(langgen.Gen):
             self.stat("probe_shadow_rec")
         return lines + ["shout(%s)" % g]
 
+    def empty_rows_probe(self):
+        """rows installed EMPTY (index assignment / push / literal / from a callee) and grown one value per
+        loop iteration or per call, alternately; row j must end up as exactly [j] (x rounds) whatever
+        happened to the frame between the pushes.  Witness: to_string(row) against the literal text."""
+        r = self.r
+        self.probe_id += 1
+        k = self.probe_id
+        self.counter += 1
+        e, i, f = "er%d" % self.counter, "ei%d" % self.counter, "ef%d" % self.counter
+        m = r.randint(2, 4)
+        form = r.choice(["setidx", "setidx", "push", "literal", "callee"])
+        if form == "setidx":
+            lines = ["make %s get [%s]" % (e, ", ".join("[%d]" % (7 + j) for j in range(m)))] + ["%s[%d] get []" % (e, j) for j in range(m)]
+        elif form == "push":
+            lines = ["make %s get []" % e] + ["%s.push([])" % e for _ in range(m)]
+        elif form == "literal":
+            lines = ["make %s get [%s]" % (e, ", ".join("[]" for _ in range(m)))]
+        else:
+            lines = ["make %s get [%s]" % (e, ", ".join('["s"]' for _ in range(m))), "do %s() start" % f] + \
+                    ["  %s[%d] get []" % (e, j) for j in range(m)] + ["end", "%s()" % f]
+        rounds = r.choice([1, 2, 3])
+        if r.random() < 0.5:
+            lines += ["make %s get 0" % i, "jasi (%s small pass %d) start" % (i, m * rounds),
+                      "  %s[%s mod %d].push(%s mod %d)" % (e, i, m, i, m), "  %s get %s add 1" % (i, i), "end"]
+        else:
+            lines += ["do %sg(j) start" % f, "  make %st get [j, [j, j]]" % f, "  %s[j].push(j)" % e, "end"]
+            for _ in range(rounds):
+                lines += ["%sg(%d)" % (f, j) for j in range(m)]
+        j = r.randrange(m)
+        want = "[" + ", ".join([str(j)] * rounds) + "]"
+        lines += ['shout("@<%d")' % k, "shout(to_string(%s[%d]))" % (e, j), 'shout("%s")' % want, 'shout("@>%d")' % k, "shout(%s)" % e]
+        self.stat("probe_empty_rows_" + form)
+        return lines
+
     def argorder_probe(self, g):
         """call by value x evaluation order: `f(g, m())` / `f(m(), g)` where m() mutates the top-level
         array g.  The parameter bound to `g` must be g's value at the moment that argument was
@@ -1417,6 +1602,7 @@ class AliasGen(langgen.Gen):
             lines += self.shadow_probe(nm)
         for _ in range(self.r.randint(1, 2)):
             lines += self.argorder_probe(nm)
+        lines += self.empty_rows_probe()
         for v in self.visible()[:4]:
             if v.ty in (langgen.NUM, langgen.STR, langgen.BOOL, langgen.ARR, langgen.NULL):
                 lines.append("shout(%s)" % v.name)
